@@ -20,6 +20,7 @@ extern that only the stand-in knows, answering 20 000 / 9 000 byte strings: repl
 """
 import json
 import os
+import re
 import resource
 import signal
 import struct
@@ -154,11 +155,13 @@ PROG_B = _prog_b()
 PROGS = {"A": PROG_A, "B": PROG_B}
 
 # ---- scenario space ----------------------------------------------------------------------------------
-PROCESS_KINDS = ["exit0", "exit1", "kill", "close_stdin", "close_stdout", "close_both"]
+ALIVE_KINDS = ["close_stdin_alive", "close_stdout_alive", "close_both_alive"]   # pipe closed, peer keeps running
+PROCESS_KINDS = ["exit0", "exit1", "kill", "close_stdin", "close_stdout", "close_both"] + ALIVE_KINDS
 TRUNCATION_KINDS = ["short_header", "short_payload"]
 MESSAGE_KINDS = ["short_header", "wrong_version", "wrong_type", "len_over_max", "short_payload",
-                 "bad_tag", "array_huge", "string_over"]
+                 "bad_tag", "array_huge", "string_over", "string_len_max", "array_huge_elem"]
 KINDS = PROCESS_KINDS + MESSAGE_KINDS
+REPLY_ONLY_KINDS = ["deep_nesting"]     # 3 MB reply of 500 000 nested arrays: only in place of a reply (pre_reply)
 K = 3   # program A makes 4 calls, so a fault at the k-th exchange (k <= 3) is always followed by another call
 
 
@@ -185,6 +188,9 @@ def scenarios(jitters):
             for step in ("on_req", "pre_reply", "mid_reply"):
                 for k in range(1, K + 1):
                     add("product", step, kind, k, jitter=j)
+        for kind in REPLY_ONLY_KINDS:
+            for k in range(1, K + 1):
+                add("product", "pre_reply", kind, k, jitter=j)
         # relaunch: the peer dies / goes deaf BETWEEN two calls; second instance healthy or faulty again
         for second in ("healthy", "same"):
             for kind in PROCESS_KINDS:
@@ -212,6 +218,12 @@ def scenarios(jitters):
             add("big", "mid_reply", kind, 1, jitter=j, prog="B")
         for kind in ("exit1", "close_stdout", "short_payload"):
             add("big", "mid_reply", kind, 2, jitter=j, prog="B")
+        for kind in REPLY_ONLY_KINDS:
+            add("big", "pre_reply", kind, 1, jitter=j, prog="B")
+        # the LAST call: a peer that closed a pipe but lives on is met only by the SHUTDOWN write at exit
+        for kind in ALIVE_KINDS:
+            for step in ("on_req", "pre_reply", "mid_reply", "post_reply"):
+                add("big", step, kind, 2, jitter=j, prog="B")
     return S
 
 
@@ -335,6 +347,18 @@ def run_case(flavor, bindir, casedir, sc, tag, tables, wall=40):
                 env=env, cmd=cmd)
 
 
+def san_signature(report):
+    """Seed-independent signature of a sanitizer report: error class + innermost frame inside the repository."""
+    m = re.search(r"ERROR: (?:AddressSanitizer|LeakSanitizer|UndefinedBehaviorSanitizer): ([A-Za-z-]+(?: is out of memory| on unknown address)?)", report)
+    if m:
+        kind = m.group(1)
+    else:
+        m = re.search(r"runtime error: ([^\n]*)", report)
+        kind = re.sub(r"0x[0-9a-f]+|\d+", "N", m.group(1))[:50] if m else "report"
+    fn = re.search(r"#\d+ 0x[0-9a-f]+ in (\w+) (?:\S*/)?src/", report)
+    return "%s@%s" % (kind, fn.group(1) if fn else "?")
+
+
 def classify(ob):
     """-> (outcome class, violation tag or None, explanation)."""
     sc = ob["sc"]
@@ -344,7 +368,7 @@ def classify(ob):
     m = SAN_RE.search(ob["err"])
     if m:
         first = ob["err"][m.start():].splitlines()[0]
-        return "sanitizer", "sanitizer", first[:160]
+        return "sanitizer", "sanitizer", san_signature(ob["err"][m.start():])
     if ob["sig"]:
         try:
             name = signal.Signals(ob["sig"]).name
@@ -356,6 +380,8 @@ def classify(ob):
         if ob["out"] == prog.expected:
             if not faulted or not ob["fired"]:
                 return "ok", None, ""
+            if sc["kind"] == "close_stdin_alive" and ob["instances"] <= 1:
+                return "recovered:peer-answered-all-calls", None, ""
             if ob["served"] < prog.ncalls and ob["instances"] <= 1:
                 return "recovered:in-process", None, ""
             if ob["instances"] > 1:
@@ -502,7 +528,9 @@ def run(ctx):
                 if vtag == "signal:SIGPIPE":
                     key = "sigpipe|step=%s|kind=%s" % (s["step"], s["kind"])
                 elif vtag == "sanitizer":
-                    key = "sanitizer|%s|step=%s|kind=%s%s" % (why[:80], s["step"], s["kind"], big)
+                    key = "sanitizer|%s|step=%s|kind=%s" % (why, s["step"], s["kind"])
+                elif vtag.startswith("signal:"):
+                    key = "%s|step=%s|kind=%s" % (vtag, s["step"], s["kind"])
                 else:
                     key = "%s|step=%s|kind=%s%s" % (vtag, s["step"], s["kind"], big)
                 ctx.violation(key, describe(ob, why), files)
@@ -532,8 +560,9 @@ def run(ctx):
                     "stubborn variant, jitter seeds) and the no-fault controls are not counted",
             "exhaustive": True,
             "explanation": "the product steps {pre_ready k=1..3 (before INIT / after its header / after its payload), post_ready, "
-                           "on_req k, pre_reply k, mid_reply k; k=1..%d} x 14 kinds x {plain, asan} is enumerated completely in "
-                           "both tiers, plus post_reply (death between calls) x 6 process kinds x second instance {healthy, same}, "
+                           "on_req k, pre_reply k, mid_reply k; k=1..%d} x 19 kinds x {plain, asan} is enumerated completely in "
+                           "both tiers (deep_nesting: pre_reply only), plus post_reply (death / closed pipe between calls) x 9 process kinds x "
+                           "second instance {healthy, same}, "
                            "a stubborn (SHUTDOWN/EOF-ignoring) family, a big-reply family (program B) and no-fault controls; "
                            "everything is run once without and %d time(s) with a jitter seed in the stand-in" % (K, len(jitters) - 1),
             "scenarios_per_flavor": len(jobs) // len(flavors),
